@@ -132,9 +132,16 @@ func init() {
 	}
 }
 
-// strAxioms are included whenever strings occur
+// strAxioms are included whenever strings occur. The last axiom is extensionality
+// for strings of at most three bytes (a Go string is determined by its length and
+// bytes), stated through constructors so that it instantiates once per string term.
 const strAxioms = `(assert (forall ((s Str)) (! (>= (str_len s) 0) :pattern ((str_len s)))))
 (assert (forall ((s Str) (k Int)) (! (and (<= 0 (str_at s k)) (<= (str_at s k) 255)) :pattern ((str_at s k)))))
+(declare-const str_mk0 Str)
+(declare-fun str_mk1 (Int) Str)
+(declare-fun str_mk2 (Int Int) Str)
+(declare-fun str_mk3 (Int Int Int) Str)
+(assert (forall ((s Str)) (! (and (=> (= (str_len s) 0) (= s str_mk0)) (=> (= (str_len s) 1) (= s (str_mk1 (str_at s 0)))) (=> (= (str_len s) 2) (= s (str_mk2 (str_at s 0) (str_at s 1)))) (=> (= (str_len s) 3) (= s (str_mk3 (str_at s 0) (str_at s 1) (str_at s 2))))) :pattern ((str_len s)))))
 `
 
 func (p *Program) extraDecls(used map[string]bool, allOps map[string]bool) string {
@@ -554,6 +561,15 @@ func (p *Program) buildQueryOpt(o *Obligation, unfoldDepth int, filter bool) str
 			if inv := p.heapInv(info.name, v, info.alloc); inv != True {
 				asserts = append(asserts, inv)
 			}
+		}
+		// tables reached as objects (rows of nested tables, map tables through a variable)
+		if used := p.tablesReferenced(asserts); len(used) > 0 {
+			for _, v := range hv {
+				if tf := p.tableHeapFacts(used, p.heapVars[v].name, v); tf != True {
+					asserts = append(asserts, tf)
+				}
+			}
+			asserts = append(asserts, p.tableRefFacts(asserts)...)
 		}
 	}
 	if o.NoUnfold {
